@@ -373,7 +373,9 @@ end ctor
 section edits
 variable (np : Np Pts A) (e : Ext Pts A)
 
-/-- `HomogFamilyAlignment.copy` at value level: an equal object (its independence is the heap model's subject) -/
+/-- `HomogFamilyAlignment.copy` at value level: an equal object.  That the copy *owns* its matrix is visible in the
+translation only as a type (`Owned`: `_h_matrix` must be bound to the result of `.copy()`, else the generated file does
+not compile); the independence of copies is the heap model's and the oracle's subject -/
 theorem genCopy_eq (o : Obj Pts A) (h : Mat) (hst : o.state = .hom h) : genCopy o = o := by
   obtain ⟨cls, rot, mir, ker, sv, src, tgt, st⟩ := o
   simp only at hst; subst hst
@@ -386,8 +388,11 @@ theorem genPseudoinverse_eq (inv : Mat → Mat) (o : Obj Pts A) (h : Mat) (hst :
   simp only at hst hc; subst hst
   cases cls <;> simp at hc <;> simp [genPseudoinverse, genCopy, pinv, Obj.setH, Obj.h]
 
-/-- `ThinPlateSplines.pseudoinverse` (a fresh construction in the other direction, with the kernel re-centred and the
-remembered floor) = the model's `pinv`, on every constructed TPS -/
+/-- `ThinPlateSplines.pseudoinverse` (a fresh construction in the other direction with a kernel of the same kind and
+the remembered floor) = the model's `pinv`, on every constructed TPS.  The model's kernels are numbers: *which point
+set the kernel is centred on* is not a term of this equality — the translator has a rule only for
+`type(self.kernel)(self.target.points)` (and only for `R2LogR2RBF(source.points)` in the constructor), so another
+centre makes the source untranslatable -/
 theorem genPseudoinverse_ThinPlateSplines_eq (hf : NpFits np e) (inv : Mat → Mat) (op : Opts) (s t : Pts)
     (o : Obj Pts A) (hb : build fixed e .tps op s t = .ok o) :
     genPseudoinverse_ThinPlateSplines np e o = .ok (pinv e inv o) := by
